@@ -15,6 +15,22 @@ REPO = stg.REPO
 def log(*a):
     print(*a, flush=True)
 
+def load_costs():
+    try:
+        return json.load(open(os.path.join(VERIF, "costs.json")))
+    except Exception:
+        return {}
+
+def save_costs(results):
+    c = load_costs()
+    for r in results:
+        if r.get("wall_s"):
+            c[r["harness"]["name"]] = round(r["wall_s"], 1)
+    try:
+        json.dump(c, open(os.path.join(VERIF, "costs.json"), "w"), indent=0, sort_keys=True)
+    except Exception:
+        pass
+
 def load_known():
     path = os.path.join(VERIF, "known_findings.txt")
     out = []
@@ -71,7 +87,8 @@ def do_stage(pid, build, cap, tag=""):
 def run_property(pid, tier, seed):
     t0 = time.time()
     prop = registry.PROPS[pid]
-    harnesses = [h for h in prop["harnesses"] if tier == "thorough" or h.get("tier", "quick") == "quick"]
+    want = {"quick": ("quick",), "thorough": ("quick", "thorough"), "full": ("quick", "thorough", "full")}[tier]
+    harnesses = [h for h in prop["harnesses"] if h.get("tier", "quick") in want]
     known = load_known()
     groups = {}
     for h in harnesses:
@@ -107,7 +124,16 @@ def run_property(pid, tier, seed):
             wq.put(wt)
         # deterministic but seed-dependent order, dealt round-robin into one batch per worker
         order = sorted(hs, key=lambda h: hashlib.sha1((str(seed) + h["name"]).encode()).hexdigest())
-        batches = [order[i::par] for i in range(par)]
+        # longest-processing-time-first packing using the costs measured by earlier runs
+        costs = load_costs()
+        order.sort(key=lambda h: -costs.get(h["name"], 60.0))
+        batches = [[] for _ in range(par)]
+        loads = [0.0] * par
+        for h in order:
+            i = loads.index(min(loads))
+            batches[i].append(h)
+            loads[i] += costs.get(h["name"], 60.0) + 5.0
+        batches = [b for b in batches if b]
         def work(batch):
             wt = wq.get()
             try:
@@ -152,8 +178,8 @@ def run_property(pid, tier, seed):
         if cl["undetermined"]:
             inconclusive.append("%s: undetermined checks: %s" % (h["name"], cl["undetermined"][0]["desc"]))
             continue
-        # vacuity witnesses
-        for label in h.get("covers", []):
+        # vacuity witnesses (not meaningful after a failed assertion: Kani cuts the path there)
+        for label in ([] if (cl["failures"] and not h.get("cover_is_property")) else h.get("covers", [])):
             stt = cl["covers"].get(label)
             if stt != "SATISFIED":
                 if h.get("cover_is_property"):
@@ -177,8 +203,12 @@ def run_property(pid, tier, seed):
                 violations.append((r, unknown))
     exit_code = 0
     viol_out = []
+    max_replays = int(os.environ.get("VERIF_MAX_REPLAYS", "4"))
     for (r, fails) in violations:
         h = r["harness"]
+        if len(viol_out) >= max_replays:
+            log("note: %s also failed (%s); not replayed, %d violations already confirmed" % (h["name"], fails[0]["desc"], len(viol_out)))
+            continue
         rep = replay(pid, r, fails)
         if rep["reproduced"]:
             viol_out.append((h["name"], fails, rep))
@@ -200,6 +230,8 @@ def run_property(pid, tier, seed):
     for m in inconclusive:
         log("INCONCLUSIVE: " + m)
     write_evidence(pid, tier, seed, results, viol_out, known_hits, inconclusive, time.time() - t0, n_queries)
+    if os.environ.get("VERIF_SAVE_COSTS"):
+        save_costs(results)
     return exit_code
 
 # ------------------------------------------------------------------------------------------
